@@ -29,6 +29,9 @@ def descend : Tbl → List Bytes → Bool → (Tbl → Option Tbl) → Option Tb
     match entry with
     | .value _ => none
     | .aot ts =>
+      -- a dotted key may not reach into an array of tables (when the array is the last
+      -- segment, the caller's mixed-table-types check rejects it against the leaf key)
+      if dotted && !ks.isEmpty then none else
       match modifyLast ts (fun last => descend last ks dotted f) with
       | some ts' => some (t.setItems (aset k (.aot ts') t.items))
       | none => none
